@@ -143,10 +143,24 @@ class fixed_format_file(object):
         fmt = self.specification[linetype][1]
         strs = []
         for val , f in zip(vals , fmt):
-            if (val is not None) and (f[-1] != 'x'): valstr = ('%%%s'%f) % val
-            else: valstr = ' ' * self.spec_width[f[0:-1]] # blank
+            width = self.spec_width[f[0:-1]]
+            if (val is not None) and (f[-1] != 'x'):
+                valstr = ('%%%s'%f) % val
+                if len(valstr) > width: valstr = self.fit_value(val, f, width)
+            else: valstr = ' ' * width # blank
             strs.append(valstr)
         return ''.join(strs)
+
+    def fit_value(self, val, f, width):
+        """Formats a value that overflows its field: a float is written
+        with reduced precision if that makes it fit, otherwise an
+        exception is raised (rather than shifting the rest of the line)."""
+        fmt, typ = f[:-1], f[-1]
+        if typ in 'efg' and '.' in fmt:
+            for precision in range(int(fmt.partition('.')[2]) - 1, -1, -1):
+                valstr = ('%%%d.%d%s' % (width, precision, typ)) % val
+                if len(valstr) <= width: return valstr
+        raise ValueError("Value %s does not fit format '%s'." % (repr(val), f))
 
     def read_values(self, linetype):
         """Reads a line from the file, parses it and returns the values."""
